@@ -44,7 +44,9 @@ func (t1 *Taskfile) Merge(t2 *Taskfile, include *Include) error {
 	if len(t2.Dotenv) > 0 {
 		return ErrIncludedTaskfilesCantHaveDotenvs
 	}
-	if t2.Output.IsSet() {
+	// The output style is a setting of the whole run: the one of an included
+	// Taskfile is only taken if the including Taskfile does not set its own.
+	if !t1.Output.IsSet() && t2.Output.IsSet() {
 		t1.Output = t2.Output
 	}
 	if t1.Includes == nil {
